@@ -42,7 +42,8 @@ MALFORMED_TEMPLATES = ["", ".", "..", "{a}..{b}", ".{a}", "{a}.", '{a}"{b}"', '"
                        "{a}.é", "{a}.{b}-", "{a}.${{b}}", "${{a}}", "{a}+", "({a})", "[{a}]",
                        "{a}.[{b}]", "{a}:{b}", "{a}?", "{a}!", "~{a}", "{a}*", "{a}|{b}", "<{a}>",
                        "{a}.<{b}>", "{a}\\.{b}", "{a}.\\", "#{a}", "{a}#", "{a}.'", "-{a}", "{a}.-",
-                       '{a}."{b}".', '"{a}"."{b}', "{a}.\"{b}\"x.{a}", "@@@"]
+                       '{a}."{b}".', '"{a}"."{b}', "{a}.\"{b}\"x.{a}", "@@@",
+                       '"""{a}"', '{a}."""{b}"', '""""', '"{a}""{b}"', '"{a}"""', '@"""{a}"', '""."""{a}"']
 FILLERS = [("a", "b"), ("foo", "bar"), ("x1", "y_2")]
 
 
@@ -206,10 +207,25 @@ def equivalence(name: str, res, obs):
                     B.record(res, k, case, repr(r.out))
 
 
+def _prime_as_value(names, obs):
+    try:
+        from nix_manipulator import parse as _parse
+        doc = _parse("{ a = 1; }")
+        top = doc.expressions[0]
+        for i, n in enumerate(names):
+            top[f"v{i}"] = n
+        doc.rebuild()
+        obs["primed_value_renders"] = obs.get("primed_value_renders", 0) + len(names)
+    except Exception:
+        obs["primed_value_refused"] = obs.get("primed_value_refused", 0) + 1
+
+
 def plan(tier, seed):
-    shards = [{"kind": "singles"}, {"kind": "keywords"}]
+    shards = [{"kind": "singles"}, {"kind": "keywords"}, {"kind": "singles", "prime": True}]
     for p in range(6):
         shards.append({"kind": "pairs", "part": p, "parts": 6})
+    for p in range(3):
+        shards.append({"kind": "pairs", "part": p, "parts": 3, "prime": True})
     shards.append({"kind": "malformed"})
     shards.append({"kind": "equivalence"})
     shards.append({"kind": "inherited"})
@@ -228,6 +244,10 @@ def run_shard(spec):
 
     def do(names, **kw):
         wal("names " + repr(names))
+        if spec.get("prime"):
+            # history: the very text was rendered as a string VALUE earlier in this process
+            # (programmatic API), then it is used as an attribute NAME
+            _prime_as_value(names, obs)
         lifecycle(tuple(names), res, obs, **kw)
         res["evaluations"] += 1
         for n in names:
